@@ -162,21 +162,20 @@ pub fn client_frames(c: &Case) -> Vec<RFrame> {
             Item::Ping(p) => out.push(RFrame { fin: true, rsv: [false; 3], opcode: 9, mask: key(), payload: p.clone() }),
             Item::Pong(p) => out.push(RFrame { fin: true, rsv: [false; 3], opcode: 10, mask: key(), payload: p.clone() }),
             Item::Message { text, payload, cuts, pings_between } => {
-                let mut pts: Vec<usize> = cuts.iter().map(|x| pt::idx(*x, payload.len() + 1)).collect();
+                // cut points may coincide with each other and with either end: RFC 6455 allows fragments of zero length
+                // (an empty first fragment still carries the message's opcode, an empty last one still carries FIN)
+                let mut pts: Vec<usize> = cuts
+                    .iter()
+                    .map(|x| match x & 7 {
+                        0 => 0,
+                        1 => payload.len(),
+                        _ => pt::idx(*x, payload.len() + 1),
+                    })
+                    .collect();
                 pts.sort();
-                pts.dedup();
-                pts.retain(|p| *p < payload.len() || payload.is_empty());
                 let mut bounds = vec![0usize];
-                for p in pts {
-                    if p > 0 {
-                        bounds.push(p);
-                    }
-                }
+                bounds.extend(pts);
                 bounds.push(payload.len());
-                bounds.dedup();
-                if bounds.len() < 2 {
-                    bounds = vec![0, payload.len()];
-                }
                 let n = bounds.len() - 1;
                 for k in 0..n {
                     let first = k == 0;
@@ -609,6 +608,7 @@ pub fn run(ctx: &Ctx) {
             arb_case(),
             |c| serde_json::to_value(c).unwrap(),
             |c| {
+                let empty_first = c.items.iter().any(|it| matches!(it, Item::Message { cuts, .. } if cuts.iter().any(|x| x & 7 == 0)));
                 let frag_ping = c.items.iter().any(|it| matches!(it, Item::Message { cuts, pings_between, payload, .. } if !cuts.is_empty() && payload.len() > 1 && pings_between.iter().any(|p| p.is_some())));
                 let ping = c.items.iter().any(|it| matches!(it, Item::Ping(_)));
                 let split = matches!(c.delivery, Delivery::SplitFrameAt(_) | Delivery::ByteWise | Delivery::Random(_));
@@ -618,6 +618,9 @@ pub fn run(ctx: &Ctx) {
                 }
                 if ping {
                     labels.push("ping");
+                }
+                if empty_first {
+                    labels.push("zero-length-first-fragment");
                 }
                 if split {
                     labels.push("split-inside-frame");
